@@ -20,7 +20,7 @@ RULE = ('A case is one fork history. sqlite: parent state at the fork in {discon
         'after a read, open session with a flushed uncommitted write, open session with an unflushed object, open session '
         'after commit} x order {child first, parent first} x child script (read, write+commit, db.get_connection, disconnect, '
         'rollback, nested fork with its own script; length 1..5) x parent script after the fork (read, write, commit, '
-        'end_session, disconnect; length 0..4); a complete grid of 6x2x6x4 short scripts plus hypothesis-drawn longer ones. '
+        'end_session, disconnect; length 0..4); a complete grid of 6x2x6x3 short scripts plus hypothesis-drawn longer ones. '
         'pool: op lists over connect/use/release/drop/disconnect/gc with forks nested to depth 2 on the generic Pool and on '
         'OraPool (a grid of 2x4x4x2 short ones plus hypothesis-drawn ones). Non-trivial = at the fork point the forking process held a pooled/open connection AND a forked process '
         'issued at least one statement (sqlite) / called connect() (pool). Distinct by the whole case.')
@@ -36,11 +36,11 @@ ASSUMPTIONS = ['real os.fork() on Linux; sqlite3 3.40 file database in rollback-
                'a hang is never reported as a violation (watchdog => inconclusive) except a provable deadlock: a single-threaded '
                'process blocked in SQLiteProvider.acquire_lock']
 SHARDS = {'quick': 4, 'thorough': 16}
-MIN_EVALS = {'quick': 500, 'thorough': 5000}
-CLASS_FLOORS = {'sqlite': 0.3, 'pool:generic': 0.1, 'pool:oracle': 0.1, 'nontrivial': 0.25}
+MIN_EVALS = {'quick': 400, 'thorough': 5000}
+CLASS_FLOORS = {'sqlite': 0.3, 'pool:generic': 0.08, 'pool:oracle': 0.08, 'nontrivial': 0.25}
 
 CHILD_FIRST_OPS = [['read'], ['write'], ['getconn'], ['disconnect', 'read'], ['rollback', 'read', 'write'], [['fork', ['read', 'write']]]]
-PARENT_SCRIPTS = [[], ['read'], ['commit', 'read'], ['end_session', 'write']]
+PARENT_SCRIPTS = [[], ['commit', 'read'], ['end_session', 'write']]
 
 
 def grid_cases():
@@ -151,8 +151,20 @@ def run(ctx):
         evaluate(ctx, case)
         ctx.count('grid')
 
-    # 2. hypothesis-drawn histories
+    # 2. hypothesis-drawn histories (the cheap pool histories first, so that a wall-clock stop starves neither part)
     from hypothesis import strategies as st
+    pleaf = st.sampled_from(['connect', 'use', 'release', 'drop', 'disconnect', 'gc', 'connect', 'release'])
+    g_script = st.lists(pleaf, min_size=1, max_size=4)
+    c_script = st.lists(st.one_of(pleaf, pleaf, pleaf, st.tuples(st.just('fork'), g_script).map(list)), min_size=1, max_size=6)
+    p_script = st.lists(st.one_of(pleaf, pleaf, st.tuples(st.just('fork'), c_script).map(list)), min_size=1, max_size=7)
+    pool_case = st.fixed_dictionaries({'kind': st.just('pool'), 'pool': st.sampled_from(['generic', 'oracle']), 'ops': p_script})
+
+    def t_pool(case):
+        evaluate(ctx, case)
+    ctx.run_test(t_pool, dict(case=pool_case), max_examples=ctx.scale(40, 300), name='pool_histories')
+    if ctx.violation:
+        return
+
     leaf = st.sampled_from(['read', 'write', 'getconn', 'disconnect'])
     sub_script = st.lists(leaf, min_size=1, max_size=3)
     child_op = st.one_of(leaf, leaf, st.just('rollback'), st.tuples(st.just('fork'), sub_script).map(list))
@@ -166,19 +178,7 @@ def run(ctx):
 
     def t_sqlite(case):
         evaluate(ctx, case)
-    ctx.run_test(t_sqlite, dict(case=sqlite_case), max_examples=ctx.scale(60, 250), name='sqlite_histories')
-    if ctx.violation:
-        return
-
-    pleaf = st.sampled_from(['connect', 'use', 'release', 'drop', 'disconnect', 'gc', 'connect', 'release'])
-    g_script = st.lists(pleaf, min_size=1, max_size=4)
-    c_script = st.lists(st.one_of(pleaf, pleaf, pleaf, st.tuples(st.just('fork'), g_script).map(list)), min_size=1, max_size=6)
-    p_script = st.lists(st.one_of(pleaf, pleaf, st.tuples(st.just('fork'), c_script).map(list)), min_size=1, max_size=7)
-    pool_case = st.fixed_dictionaries({'kind': st.just('pool'), 'pool': st.sampled_from(['generic', 'oracle']), 'ops': p_script})
-
-    def t_pool(case):
-        evaluate(ctx, case)
-    ctx.run_test(t_pool, dict(case=pool_case), max_examples=ctx.scale(90, 300), name='pool_histories')
+    ctx.run_test(t_sqlite, dict(case=sqlite_case), max_examples=ctx.scale(30, 250), name='sqlite_histories')
 
 
 def replay(case):
